@@ -35,8 +35,8 @@ def uid_conflict(self, uid, name):
           modifies=["self._fname_to_uid", "self._uid_to_fname"],
           modifies_on_raise=["self._fname_to_uid", "self._uid_to_fname"])
 class GitStore_check_duplicate:
-    def requires(self):
-        return store_inv(self)
+    def requires(self, name):
+        return store_inv(self) and name != ".xandikos"
 
     def raises_DuplicateUidError(self, uid, name):
         # exactly when a *different* member currently holds this uid (C06, both directions)
@@ -86,6 +86,12 @@ def upload_file(self, name, content_type, data):
             else file_by_ct(data, content_type, self.extra_file_handlers))
 
 
+def accepted_upload(self, name, content_type, data):
+    # the name of the collection's own metadata file is not a member name; anything else must
+    # be a valid file of its type
+    return name != ".xandikos" and valid_file(upload_file(self, name, content_type, data))
+
+
 def upload_uid(f):
     return uid_val(f) if uid_ok(f) else None
 
@@ -112,22 +118,24 @@ class GitStore_import_one:
         # name None comes with a content type (POST add-member); InvalidFileContents outcome 2 of
         # get_uid cannot happen after validate() succeeded
         return (store_inv(self) and (name is not None or content_type is not None)
+                # a generated name (uuid4 + extension) is never the reserved one
+                and implies(name is None, effective_name(name, content_type) != ".xandikos")
                 and forall("opaque:File", lambda f: implies(valid_file(f), uid_outcome(f) != 2)))
 
     def raises_InvalidFileContents(self, name, content_type, data):
-        return not valid_file(upload_file(self, name, content_type, data))
+        return not accepted_upload(self, name, content_type, data)
 
     def raises_DuplicateUidError(self, name, content_type, data):
-        return valid_file(upload_file(self, name, content_type, data)) and refused_dup(self, name, content_type, data)
+        return accepted_upload(self, name, content_type, data) and refused_dup(self, name, content_type, data)
 
     def raises_InvalidETag(self, name, content_type, data, replace_etag):
-        return (valid_file(upload_file(self, name, content_type, data))
+        return (accepted_upload(self, name, content_type, data)
                 and not refused_dup(self, name, content_type, data)
                 and replace_etag is not None
                 and self.ghost_M.get(effective_name(name, content_type)) != replace_etag)
 
     def raises_LockedError(self, name, content_type, data, replace_etag):
-        return (valid_file(upload_file(self, name, content_type, data))
+        return (accepted_upload(self, name, content_type, data)
                 and not refused_dup(self, name, content_type, data)
                 and not (replace_etag is not None
                          and self.ghost_M.get(effective_name(name, content_type)) != replace_etag)
